@@ -34,6 +34,15 @@ def make_scenarios(ctx, count):
                 k = rng.choice([0, 1, 5, 50])
             srcs = G.distinct_macs(rng, k + 4, avoid=[own])
             reals = G.distinct_macs(rng, 6, avoid=[own])
+            # stations with nearly equal addresses (one byte, or only the first two bytes apart) are distinct stations
+            for lst in (srcs, reals):
+                for j in range(1, len(lst)):
+                    if rng.random() < 0.15:
+                        cand = G.related_mac(rng, lst[j - 1])
+                        if cand not in lst and cand != own:
+                            lst[j] = cand
+            if rng.random() < 0.1:
+                reals[0] = own                 # our own emission handed back by the segment is an observation like any other
             obs = []
             for j in range(k):
                 obs.append((srcs[j], rng.choice(reals)))
